@@ -77,9 +77,148 @@ func (tk *vfTokens) host(rt *rapid.T) string {
 	parts := make([]string, n)
 	for i := range parts {
 		parts[i] = vfLabel(rt)
+		tk.add(parts[i]) // a single label of the name is a leak as well
 	}
 	return tk.add(strings.Join(parts, "."))
 }
+
+// vfLeaks reports the first secret that occurs in out.  Host names and hex
+// groups are case-insensitive (net/url lower-cases a scheme, a resolver may
+// upper-case a name), so the comparison is, too.
+func vfLeaks(out string, tokens []string) (string, bool) {
+	lo := strings.ToLower(out)
+	for _, tok := range tokens {
+		if tok != "" && strings.Contains(lo, strings.ToLower(tok)) {
+			return tok, true
+		}
+	}
+	return "", false
+}
+
+// ---- URL strings for url.Error ---------------------------------------------------
+
+var (
+	vfURLSchemes = []string{"http", "https", "socks5", "ws", "ftp", "socks4a", "meek+https", "x-pt"}
+	vfURLOps     = []string{"Get", "Post", "Head", "Connect", "parse", "proxyconnect", "Put", "Dial", "socks connect"}
+	vfURLForms   = []string{"schemeless-name:port", "absolute", "schemeless-name:port/path", "absolute-port", "userinfo-secret",
+		"path-query-secret", "ipv6-literal", "//host:port/path", "bare-host", "schemeless-ip:port", "opaque", "percent-encoded",
+		"upper-case", "trailing-dot", "unparseable", "schemeless-name:port", "absolute-port"}
+)
+
+const (
+	vfURLSchemelessName = "url-schemeless-name:port" // class: url.Error whose URL is name:port[/path] without a scheme
+)
+
+// urlString draws a URL text for a url.Error in one of many syntactic forms,
+// all built around secrets.  Returns the text and the form name.
+func (tk *vfTokens) urlString(rt *rapid.T) (string, string) {
+	form := rapid.SampledFrom(vfURLForms).Draw(rt, "urlForm")
+	scheme := rapid.SampledFrom(vfURLSchemes).Draw(rt, "scheme")
+	port := strconv.Itoa(vfPort(rt))
+	anyHost := func() string { // name, IPv4 or bracketed IPv6
+		switch rapid.SampledFrom([]int{0, 1, 0, 2}).Draw(rt, "urlHostKind") {
+		case 0:
+			return tk.host(rt)
+		case 1:
+			return tk.ip4(rt).String()
+		default:
+			return "[" + tk.ip6(rt).String() + "]"
+		}
+	}
+	path := func() string {
+		return rapid.SampledFrom([]string{"", "/", "/meek/", "/a/b?x=1", "/?q", "/#frag"}).Draw(rt, "urlPath")
+	}
+	switch form {
+	case "schemeless-name:port":
+		return tk.host(rt) + ":" + port, form
+	case "schemeless-name:port/path":
+		return tk.host(rt) + ":" + port + rapid.SampledFrom([]string{"/", "/meek/", "/a?b=c"}).Draw(rt, "urlPath"), form
+	case "schemeless-ip:port":
+		if rapid.Bool().Draw(rt, "v6") {
+			return "[" + tk.ip6(rt).String() + "]:" + port, form
+		}
+		return tk.ip4(rt).String() + ":" + port, form
+	case "absolute":
+		return scheme + "://" + anyHost() + path(), form
+	case "absolute-port":
+		return scheme + "://" + anyHost() + ":" + port + path(), form
+	case "userinfo-secret":
+		// user name / password that name the peer (or a front)
+		ui := tk.host(rt)
+		if rapid.Bool().Draw(rt, "withPw") {
+			ui += ":" + tk.host(rt)
+		}
+		return scheme + "://" + ui + "@" + anyHost() + ":" + port + path(), form
+	case "path-query-secret":
+		return scheme + "://" + anyHost() + "/" + tk.host(rt) + "?front=" + tk.host(rt) + "&ip=" + tk.ip4(rt).String(), form
+	case "ipv6-literal":
+		h := "[" + tk.ip6(rt).String()
+		if rapid.IntRange(0, 3).Draw(rt, "zone") == 0 {
+			h += "%25eth0"
+		}
+		h += "]"
+		if rapid.Bool().Draw(rt, "withPort") {
+			h += ":" + port
+		}
+		return scheme + "://" + h + path(), form
+	case "//host:port/path":
+		return "//" + anyHost() + ":" + port + path(), form
+	case "bare-host":
+		return anyHost(), form
+	case "opaque":
+		switch rapid.SampledFrom([]int{0, 1, 2}).Draw(rt, "opaqueKind") {
+		case 0:
+			return "mailto:" + tk.host(rt), form
+		case 1:
+			return "mailto:user@" + tk.host(rt), form
+		default:
+			return scheme + ":" + tk.host(rt) + ":" + port, form
+		}
+	case "percent-encoded":
+		h := tk.host(rt) + "." + vfLabel2(rt, tk)
+		enc := strings.ReplaceAll(h, ".", "%2E")
+		switch rapid.SampledFrom([]int{0, 1, 2}).Draw(rt, "pctKind") {
+		case 0:
+			return scheme + "://" + enc + ":" + port + "/", form // net/url rejects %2E in a host
+		case 1:
+			return scheme + "://" + anyHost() + "/" + enc + "?h=" + enc, form
+		default:
+			return enc + ":" + port, form
+		}
+	case "upper-case":
+		h := strings.ToUpper(tk.host(rt))
+		switch rapid.SampledFrom([]int{0, 1, 2}).Draw(rt, "upperKind") {
+		case 0:
+			return h + ":" + port, form // scheme-less; net/url lower-cases what it takes for the scheme
+		case 1:
+			return strings.ToUpper(scheme) + "://" + h + ":" + port + "/", form
+		default:
+			return scheme + "://" + h + path(), form
+		}
+	case "trailing-dot":
+		if rapid.Bool().Draw(rt, "dotSchemeless") {
+			return tk.host(rt) + ".:" + port, form
+		}
+		return scheme + "://" + tk.host(rt) + ".:" + port + path(), form
+	default: // unparseable
+		h := tk.host(rt)
+		return rapid.SampledFrom([]string{
+			scheme + "://[" + h,              // missing ']'
+			scheme + "://" + h + ":" + port + ":" + port, // port twice
+			scheme + "://" + h + ":x" + port, // non-numeric port
+			"://" + h + ":" + port,           // missing scheme
+			scheme + "://" + h + "/%zz",      // bad escape
+			scheme + "://" + h + "\x7f/",      // control character
+			" " + scheme + "://" + h,         // leading blank
+			h + " :" + port,                  // blank inside
+			"1" + h + ":" + port,             // scheme cannot start with a digit
+			scheme + "://" + h + "%zz:" + port, // bad escape in host
+		}).Draw(rt, "badURL"), "unparseable"
+	}
+}
+
+// vfLabel2 draws one more secret label (registered).
+func vfLabel2(rt *rapid.T, tk *vfTokens) string { return tk.add(vfLabel(rt)) }
 
 func (tk *vfTokens) ip4(rt *rapid.T) net.IP {
 	ip := net.IPv4(byte(rapid.IntRange(1, 223).Draw(rt, "o0")), byte(rapid.IntRange(0, 255).Draw(rt, "o1")),
@@ -205,7 +344,7 @@ const (
 var (
 	vfLeafSlots = []string{vfKDNSEmb, vfKAddr, vfKDNS, vfKErrno, vfKParse, vfKPlain, vfKInvalid, vfKUnknown,
 		vfKDNSEmb, vfKAddr, vfKDNS, vfKErrno, vfKPlain, vfKAddr}
-	vfParentSlots = []string{vfKOp, vfKWrap, vfKOp, vfKURL, vfKOp, vfKSyscall, vfKDNSWrap, vfKOp, vfKWrap, vfKOp}
+	vfParentSlots = []string{vfKOp, vfKURL, vfKOp, vfKWrap, vfKOp, vfKSyscall, vfKDNSWrap, vfKURL, vfKOp, vfKWrap, vfKOp}
 )
 
 type vfChain struct {
@@ -216,6 +355,7 @@ type vfChain struct {
 	bearing  bool // some node carries an address
 	underOp  bool // an address-bearing node sits below an OpError
 	embedded bool // a DNS cause text embeds socket addresses
+	urlForms []string // forms of the URL texts of the url.Error nodes
 }
 
 func (c *vfChain) shape() string { return strings.Join(c.descr, " > ") }
@@ -358,11 +498,12 @@ func vfParent(rt *rapid.T, c *vfChain) {
 		}
 		c.err, kind, descr = oe, vfKOp, d+"}"
 	case vfKURL:
-		scheme := rapid.SampledFrom([]string{"http", "https", "socks5", "socks4a"}).Draw(rt, "scheme")
-		u := scheme + "://" + tk.addrString(rt) + "/"
-		c.err = &url.Error{Op: rapid.SampledFrom([]string{"Get", "Post", "parse", "Connect"}).Draw(rt, "urlOp"), URL: u, Err: child}
+		u, form := tk.urlString(rt)
+		op := rapid.SampledFrom(vfURLOps).Draw(rt, "urlOp")
+		c.err = &url.Error{Op: op, URL: u, Err: child}
 		c.bearing = true
-		kind, descr = vfKURL, "url.Error{"+scheme+"}"
+		c.urlForms = append(c.urlForms, form)
+		kind, descr = vfKURL, "url.Error{"+op+" "+form+"}"
 	case vfKSyscall:
 		sc := rapid.SampledFrom(vfSyscalls).Draw(rt, "syscall")
 		c.err = &os.SyscallError{Syscall: sc, Err: child}
@@ -470,10 +611,8 @@ func vfCheckError(rt *rapid.T, err error, tokens []string, descr string, unsafeF
 			rt.Fatalf("VIOL[c20-unsafe-flag]: scrubbing requested but Unsafe() reports true (mode %s)", mc)
 		}
 		scrubbed = out
-		for _, tok := range tokens {
-			if tok != "" && strings.Contains(out, tok) {
-				rt.Fatalf("VIOL[c20-leak]: scrubbed log text contains the secret %q\nerror shape: %s\nerr.Error() = %q\nElideError  = %q\nall secrets: %q (mode %s)", tok, descr, want, out, tokens, mc)
-			}
+		if tok, leak := vfLeaks(out, tokens); leak {
+			rt.Fatalf("VIOL[c20-leak]: scrubbed log text contains the secret %q\nerror shape: %s\nerr.Error() = %q\nElideError  = %q\nall secrets: %q (mode %s)", tok, descr, want, out, tokens, mc)
 		}
 	}
 	return scrubbed, modeClass
@@ -490,15 +629,39 @@ func vfTempLogDir(t *testing.T) {
 	}
 }
 
+// vfURLClasses: histogram classes for the URL forms of a case (each once).
+func vfURLClasses(unit string, forms []string) []string {
+	if len(forms) == 0 {
+		return nil
+	}
+	cls := []string{unit + "-url.Error"}
+	seen := map[string]bool{}
+	for _, f := range forms {
+		k := unit + "-url-" + f
+		if f == "schemeless-name:port" || f == "schemeless-name:port/path" {
+			k = unit + "-" + vfURLSchemelessName
+		}
+		if !seen[k] {
+			seen[k] = true
+			cls = append(cls, k)
+		}
+	}
+	return cls
+}
+
 // TestVerifC20Tree: generated error chains.
 func TestVerifC20Tree(t *testing.T) {
 	c := ev.For("C20")
-	c.Rule("tree: error chain of depth 1..5, leaf in {AddrError, DNSError (plain cause / cause embedding the resolver's socket error / go1.23 UnwrapErr), InvalidAddrError, UnknownNetworkError, ParseError, Errno, sentinel}, parents in {OpError with Source/Addr, url.Error, SyscallError, Errorf(%w), DNSError wrapping its child}; secrets = host names over the alphabet '" + vfSecretAlphabet + "' (5..10 letters per label), IPv4/IPv6 literals, DNS server host parts; each chain is evaluated with scrubbing on (no secret may be a substring of the output) and with unsafe logging (output == err.Error()); non-trivial = depth >= 2 with an address-bearing node below an OpError; fingerprint = chain shape + secrets")
+	c.Rule("tree: error chain of depth 1..5, leaf in {AddrError, DNSError (plain cause / cause embedding the resolver's socket error / go1.23 UnwrapErr), InvalidAddrError, UnknownNetworkError, ParseError, Errno, sentinel}, parents in {OpError with Source/Addr, url.Error (Op from 9 values; URL text in 15 syntactic forms around secrets: absolute with/without port, user info / path / query holding a secret, IPv6 literal, scheme-less name:port and name:port/path, scheme-less ip:port, //host:port/path, bare host, opaque, percent-encoded, upper-case, trailing dot, unparseable), SyscallError, Errorf(%w), DNSError wrapping its child}; secrets = host names over the alphabet '" + vfSecretAlphabet + "' (5..10 letters per label), IPv4/IPv6 literals, DNS server host parts; each chain is evaluated with scrubbing on (no secret — whole host name, single label, IP literal — may occur in the output, compared case-insensitively) and with unsafe logging (output == err.Error()); non-trivial = depth >= 2 with an address-bearing node below an OpError; fingerprint = chain shape + secrets")
 	c.Assume("strings.Contains over the generated secrets decides a leak; secrets use an alphabet disjoint from every operation/cause word, so a hit cannot be a coincidence")
 	c.Assume("error texts put into plain sentinel leaves and Errorf wrappers are the transport author's own and carry no address (ElideError passes non-network errors through by design)")
 	c.Floor("tree-nontrivial/tree", 0.20)
 	c.Floor("tree-dns-embedded/tree", 0.05)
 	c.Floor("tree-depth>=4/tree", 0.15)
+	c.Floor("tree-url.Error/tree", 0.15)
+	// url.Error with a scheme-less name:port[/path] URL (net/url reads the host name as the scheme)
+	c.Floor("tree-"+vfURLSchemelessName+"/tree", 0.02)
+	c.Floor("tree-url-unparseable/tree", 0.005)
 	vfTempLogDir(t)
 	rapid.Check(t, func(rt *rapid.T) {
 		ch := vfGenChain(rt)
@@ -520,6 +683,7 @@ func TestVerifC20Tree(t *testing.T) {
 		for i := 0; i+1 < depth; i++ {
 			cls = append(cls, "pair "+ch.kinds[i]+">"+ch.kinds[i+1])
 		}
+		cls = append(cls, vfURLClasses("tree", ch.urlForms)...)
 		full := ch.err.Error()
 		c.Case(ev.Hash(ch.shape(), strings.Join(ch.tokens.list, ",")), nt, cls, func() any {
 			return map[string]any{"shape": ch.shape(), "secrets": ch.tokens.list, "err.Error()": full, "scrubbed": scrubbed}
@@ -621,10 +785,8 @@ func TestVerifC20Addr(t *testing.T) {
 				continue
 			}
 			mode, scrubbed = mc, out
-			for _, tok := range tk.list {
-				if strings.Contains(out, tok) {
-					rt.Fatalf("VIOL[c20-addr-leak]: ElideAddr(%q) = %q contains the secret %q (form %s, mode %s)", in, out, tok, form, mc)
-				}
+			if tok, leak := vfLeaks(out, tk.list); leak {
+				rt.Fatalf("VIOL[c20-addr-leak]: ElideAddr(%q) = %q contains the secret %q (form %s, mode %s)", in, out, tok, form, mc)
 			}
 			ok := out == "[scrubbed]" || (hasPort && out == "[scrubbed]:"+port)
 			if !ok {
